@@ -7,7 +7,7 @@ package clip
 // ---------------------------------------------------------------- region codes (loop-free, IEEE-754)
 // code 0 is exactly "inside the closed box"; each bit is exactly one strict comparison
 //@ func bitCode(b, p)
-//@   pure
+//@   function
 //@   ensures 0 <= result && result < 16
 //@   ensures !isnan(p[0]) && !isnan(p[1]) ==> (result == 0 <==> contains(b, p))
 //@   ensures (result % 2 == 1 <==> p[0] < b.Min[0]) && ((result / 2) % 2 == 1 <==> !(p[0] < b.Min[0]) && p[0] > b.Max[0])
@@ -15,7 +15,7 @@ package clip
 
 // the open code is 0 only strictly inside: open code 0 implies closed code 0
 //@ func bitCodeOpen(b, p)
-//@   pure
+//@   function
 //@   ensures 0 <= result && result < 16
 //@   ensures !isnan(p[0]) && !isnan(p[1]) && result == 0 ==> contains(b, p) && p[0] != b.Min[0] && p[0] != b.Max[0] && p[1] != b.Min[1] && p[1] != b.Max[1]
 
@@ -51,6 +51,7 @@ package clip
 //@   ensures forall k :: 0 <= k && k < len(out) && k != i ==> result[k] == old(out[k])
 //@   ensures i < len(out) ==> result[i].ref == old(out[i]).ref || fresh(result[i])
 //@   ensures i == len(out) ==> fresh(result[i])
+//@   ensures len(result[i]) >= 1 && same(result[i][len(result[i]) - 1], p)
 
 // intersect is only ever called with a code that has an edge bit set (its panic is unreachable);
 // piece indices stay within the output built so far; a segment is given up only once it is accepted
@@ -58,6 +59,12 @@ package clip
 //@ func line(box, in, open)
 //@   modifies nothing
 //@   ensures result == nil || fresh(result)
+// the end of the line is not lost: when the last vertex has region code 0 (closed or open code, as the
+// mode says) it is the last vertex of the last piece
+//@   ensures len(in) >= 2 && ite(open, bitCodeOpen(box, in[len(in)-1]), bitCode(box, in[len(in)-1])) == 0 ==> len(result) >= 1 && len(result[len(result)-1]) >= 1 && same(result[len(result)-1][len(result[len(result)-1])-1], in[len(in)-1])
+//@   loop 1: invariant len(out) - 1 <= line && codeA == ite(open, bitCodeOpen(box, in[i-1]), bitCode(box, in[i-1]))
+//@   loop 1: invariant i == loopTo && i >= 2 && codeA == 0 ==> len(out) >= 1 && line == len(out) - 1 && len(out[line]) >= 1 && same(out[line][len(out[line])-1], in[i-1])
+//@   loop 2: invariant len(out) - 1 <= line && endCode == ite(open, bitCodeOpen(box, in[i]), bitCode(box, in[i])) && (endCode == 0 ==> codeB == 0 && same(b, in[i]))
 //@   loop 1: invariant 1 <= i && i <= loopTo && loopTo == len(in) && 0 <= line && line <= len(out) && 0 <= codeA && codeA < 16 && (out == nil || fresh(out))
 //@   loop 1: invariant forall k :: 0 <= k && k < len(out) ==> out[k] == nil || fresh(out[k])
 //@   loop 2: invariant 1 <= i && i < loopTo && loopTo == len(in) && 0 <= line && line <= len(out) && 0 <= codeA && codeA < 16 && 0 <= codeB && codeB < 16 && 0 <= endCode && endCode < 16 && (out == nil || fresh(out)) && (forall k :: 0 <= k && k < len(out) ==> out[k] == nil || fresh(out[k]))
